@@ -146,6 +146,27 @@ def step(eng, st, site, it, ety=None, back=False):
                 b3 = b if b2 is None else b2
                 out.append((s3, VIter(k, None, 0, (a3, b3), None), END if y is END else _tuple(x, y)))
         return out
+    if k == "chain2":
+        a, b = it.src
+        out = []
+        if a is not None:
+            ra = step(eng, st, site, a, ety, back)
+            if ra is None:
+                return None
+            for s2, a2, x in ra:
+                if x is END:
+                    rb = step(eng, s2, site, b, ety, back)
+                    if rb is None:
+                        return None
+                    for s3, b2, y in rb:
+                        out.append((s3, VIter(k, None, 0, (None, b if b2 is None else b2), None), y))
+                else:
+                    out.append((s2, VIter(k, None, 0, (a if a2 is None else a2, b), None), x))
+            return out
+        rb = step(eng, st, site, b, ety, back)
+        if rb is None:
+            return None
+        return [(s3, VIter(k, None, 0, (None, b if b2 is None else b2), None), y) for s3, b2, y in rb]
     if k == "copied":
         res = step(eng, st, site, it.src, ety, back)
         if res is None:
